@@ -2495,7 +2495,7 @@ main(int argc, char** argv)
           }
       }
   // thread-count changes on live objects, setter histories of the scatter simulation under threads
-  const int re_reps = thorough ? 5 : 1;
+  const int re_reps = thorough ? 12 : 1;
   for (int rep = 0; rep < re_reps; ++rep)
     for (int pr = 0; pr < 4; ++pr)
       {
@@ -2517,7 +2517,7 @@ main(int argc, char** argv)
           }
       }
   // list-mode objective function, T threads vs 1 thread
-  for (int rep = 0; rep < (thorough ? 6 : 2); ++rep)
+  for (int rep = 0; rep < (thorough ? 10 : 2); ++rep)
     for (int T : threads)
       if (want("listmode"))
         guarded("listmode", [&]() { scenario_listmode(rng2, std::vector<int>{ T }, false); });
@@ -2545,7 +2545,7 @@ main(int argc, char** argv)
     }
   // clear_cache() against readers of the cache (child processes)
   if (want("clear_cache"))
-    for (int rep = 0; rep < (thorough ? 24 : 8); ++rep)
+    for (int rep = 0; rep < (thorough ? 48 : 8); ++rep)
       scenario_clear_cache(rng2, rep % 3 == 0 ? 4 : rep % 3 == 1 ? 7 : 2, argv[1], argv[2]);
   stir::set_num_threads(1);
   wipe_dir();
